@@ -224,7 +224,7 @@ def r11_4(run):
     """the heat duty enters the solver through the thermal branch relation; the numba twin of that kernel must compute the same
     guarded expressions as the numpy twin the mode formulas are checked against (shared with C07 R7.1, thermal pair)"""
     from .c07 import r7_1
-    r7_1(run, only={"derivatives_termal"}, floor=4, residual_only=True)
+    r7_1(run, only={"derivatives_thermal"}, floor=4, residual_only=True)
 
 
 RULES = [("R11.1", r11_1), ("R11.2", r11_2), ("R11.3", r11_3), ("R11.4", r11_4)]
